@@ -197,7 +197,7 @@ func (ex *Exec) extCandidate(class string, v *Term) {
 		pr := &pair{p: p, clause: clause, eq: Eq(v, p)}
 		// keys made by the code under verification are compared with the keys of the
 		// reference computation in the lemma, not with one another
-		skipCut := class == "key" && inCode && ex.extOrigin[p.id]
+		skipCut := class == "cmp" || class == "key" && inCode && ex.extOrigin[p.id]
 		if !noCuts && !skipCut {
 			pr.q = ex.cutQuery(pr.eq, clause)
 			if traceCuts {
@@ -291,6 +291,30 @@ type cbcUse struct {
 	enc          bool
 	key, iv, dat *Term
 	out          *Term
+	src          SliceV // enc: the plaintext buffer and the length of the byte log when it was encrypted
+	upto         int
+}
+
+// tryProve: hyps so far and the current reach condition entail goal (short solver call).
+func (ex *Exec) tryProve(goal *Term, timeoutMs int) bool {
+	if goal.IsTrue() {
+		return true
+	}
+	if goal.IsFalse() || noCuts {
+		return false
+	}
+	ng := Not(goal)
+	if ex.cur != nil && !ex.cur.IsTrue() {
+		ng = And(ex.cur, ng)
+	}
+	// every hypothesis (the goal need not mention the symbols its proof goes through)
+	asserts := append(append([]*Term{}, ex.hyps...), ng)
+	q := RenderQuery(asserts, nil, ex.quant, "", false)
+	r := runSolver(solvers[0], q, timeoutMs)
+	if traceCuts {
+		fmt.Fprintf(os.Stderr, "PROVE %s %dms %s\n", r.status, r.millis, goal.StringLimit(160))
+	}
+	return r.status == "unsat"
 }
 
 func (ex *Exec) installBytesLayer() {
@@ -317,6 +341,14 @@ func (ex *Exec) installBytesLayer() {
 		ex.assumeAxiom(Eq(blenT(d), size))
 		ex.noteLen(d, size)
 		return ex.bytesRef(d, size)
+	}
+	// bytes.Equal / hmac.Equal: equality of the two values (extensionality in the
+	// intended model makes this the same as equal length and equal octets)
+	ex.bytesEqHook = func(a, b SliceV) *Term {
+		va, vb := ex.bytesOf(a), ex.bytesOf(b)
+		ex.extCandidate("cmp", va)
+		ex.extCandidate("cmp", vb)
+		return Eq(va, vb)
 	}
 	ex.aesNewHook = func(reach, ref *Term, key SliceV) {
 		kv := ex.bytesOf(key)
@@ -347,15 +379,37 @@ func (ex *Exec) installBytesLayer() {
 		} else {
 			out = App(fnCbcDec, nil, nil, key, iv, dat)
 			// inverse axiom against every encryption seen so far
-			for _, u := range ex.cbcUses {
-				if u.enc {
-					ex.assumeAxiom(Implies(And(Eq(key, u.key), Eq(iv, u.iv), Eq(dat, u.out)), Eq(out, u.dat)))
+			var match *cbcUse
+			for i := len(ex.cbcUses) - 1; i >= 0; i-- {
+				u := &ex.cbcUses[i]
+				if !u.enc {
+					continue
 				}
+				same := And(Eq(key, u.key), Eq(iv, u.iv), Eq(dat, u.out))
+				ex.assumeAxiom(Implies(same, Eq(out, u.dat)))
+				if match == nil && ex.tryProve(same, cutTimeoutMs*4) {
+					match = u
+				}
+			}
+			if match != nil {
+				// this is provably the decryption of that encryption: the output is the
+				// plaintext as it was then - as concrete memory, so that code parsing it
+				// (the inner payload chain) is executed on the bytes that were encoded
+				ex.assumeGlobal(Eq(out, match.dat))
+				ex.assumeAxiom(Eq(blenT(out), blenT(dat)))
+				ex.noteLen(out, ex.lenOf(dat))
+				ex.cbcUses = append(ex.cbcUses, cbcUse{enc: false, key: key, iv: iv, dat: dat, out: out})
+				n := ex.gread("cbc.used", ref)
+				ex.oblige("pre", "block mode used once (chaining across CryptBlocks calls is not modelled)", reach, Eq(n, Int(0)))
+				ex.gwrite("cbc.used", reach, ref, Int(1))
+				r := ex.unknownBytes()
+				ex.mem.push(ex.byteKind(), MemEntry{typ: eCopy, guard: True(), ref: r, idx: Int(0), n: match.src.Len, src: match.src.Arr, srcOff: match.src.Off, srcUpto: match.upto})
+				return r
 			}
 		}
 		ex.assumeAxiom(Eq(blenT(out), blenT(dat)))
 		ex.noteLen(out, ex.lenOf(dat))
-		ex.cbcUses = append(ex.cbcUses, cbcUse{enc: dc == 1, key: key, iv: iv, dat: dat, out: out})
+		ex.cbcUses = append(ex.cbcUses, cbcUse{enc: dc == 1, key: key, iv: iv, dat: dat, out: out, src: src, upto: len(ex.byteKind().log)})
 		// (a block mode is used for one CryptBlocks call in this library; chaining state
 		// across calls is not modelled)
 		n := ex.gread("cbc.used", ref)
